@@ -53,7 +53,7 @@ PROPS = {
         'repotests': True,
         'mc_quick': ['MC_quick_clean.cfg'], 'mc_thorough': MC_THOROUGH,
         'title': 'Rollback',
-        'units': [('swap', 1500, 20000), ('subcache', 500, 6000), ('crash', 2000, 40000), ('forcrash', 800, 15000), ('foreign', 400, 6000), ('selfnest', 600, 8000),
+        'units': [('swap', 1500, 20000), ('subcache', 500, 6000), ('crash', 2000, 40000), ('forcrash', 800, 15000), ('foreign', 400, 6000), ('selfnest', 600, 8000), ('bulk', 3, 20),
                   ('regress', 0, 0)],
         # "... or while the cache file is being written": an OSError injected into the cache open / write of a
         # build whose function returned normally, on histories with and without a cache directory of its own
